@@ -36,15 +36,16 @@ class Case:
         self.structs = []; self.classes = []; self.enums = []; self.globals = []; self.fns = []
         self.lam = 0; self.var = 0
         self.depth_budget = 0
+        self.safe = "chain" in feat and rnd.random() < 0.6     # quiet prefix: the only trap is the chain's
 
     # ---------- literals ----------
     def lit(self, ty, small=False):
         r = self.r
         if ty == "bool":
             return {"k": "lit", "ty": "bool", "b": r.random() < 0.5}
-        kind = "z" if small else r.choice(["z", "z", "z", "z", "max", "min"])
+        kind = "z" if (small or self.safe) else r.choice(["z", "z", "z", "z", "max", "min"])
         if kind == "z":
-            c, o = 0, r.choice([0, 1, -1, 2, -2, 3, 7, -7, 10, 100, -100, r.randint(-300, 300)])
+            c, o = 0, r.choice([0, 1, -1, 2, -2, 3, 7, -7, 10, 100, -100, r.randint(-300, 300)] if not self.safe else [0, 1, 2, 3, -1])
         elif kind == "max":
             c, o = 1, -r.choice([1, 1, 2, 3, 4, 8])
         else:
@@ -81,8 +82,10 @@ class Case:
                 return {"k": "logic", "op": r.choice(["&&", "||"]), "l": self.expr("bool", env, d - 1), "r": self.expr("bool", env, d - 1), "ty": "bool"}
             return self.proj(ty, env, d) or self.lit(ty)
         c = r.random()
+        if self.safe:
+            c = r.choice([0.1, 0.6, 0.9])
         if c < 0.40:
-            return {"k": "bin", "op": r.choice(["+", "-", "*", "/", "%", "+", "-", "*"]), "l": self.expr(ty, env, d - 1), "r": self.expr(ty, env, d - 1), "ty": ty}
+            return {"k": "bin", "op": r.choice(["+", "-", "*", "/", "%", "+", "-", "*"] if not self.safe else ["+", "-"]), "l": self.expr(ty, env, d - 1), "r": self.expr(ty, env, d - 1), "ty": ty}
         if c < 0.50:
             return {"k": "wrap", "op": r.choice(["wrapping_add", "wrapping_sub", "wrapping_mul"]), "l": self.expr(ty, env, d - 1), "r": self.expr(ty, env, d - 1), "ty": ty}
         if c < 0.56:
@@ -121,7 +124,7 @@ class Case:
                 for fn_, ft in decl["fields"]:
                     if ft == ty: opts.append({"k": "fget", "e": {"k": "var", "n": n, "ty": t}, "f": fn_, "ty": ty, "ref": t[0] == "class"})
             elif t[0] == "arr" and t[1] == ty:
-                idx = r.choice([{"k": "lit", "ty": "i64", "c": 0, "o": r.randint(-1, 4)}, self.expr("i64", {k: v for k, v in env.items() if v == "i64"}, 0)])
+                idx = r.choice([{"k": "lit", "ty": "i64", "c": 0, "o": r.randint(-1, 4)}, self.expr("i64", {k: v for k, v in env.items() if v == "i64"}, 0)]) if not self.safe else {"k": "lit", "ty": "i64", "c": 0, "o": 0}
                 opts.append({"k": "index", "a": n, "i": idx, "ty": ty})
             elif t[0] == "lam" and t[2] == ty and d > 0:
                 opts.append({"k": "invoke", "n": n, "args": [self.expr(pt, env, d - 1) for pt in t[1]], "ty": ty})
@@ -200,7 +203,7 @@ class Case:
             elif c < 0.87 and "lambda" in self.feat and d > 0:
                 out.append(self.lambda_let(env))
             elif c < 0.90:
-                out.append({"k": "assert", "e": self.expr("bool", env, 1) if r.random() < 0.5 else {"k": "lit", "ty": "bool", "b": True}})
+                out.append({"k": "assert", "e": self.expr("bool", env, 1) if (r.random() < 0.5 and not self.safe) else {"k": "lit", "ty": "bool", "b": True}})
             else:
                 out.append(self.print_stmt(env))
         return out
@@ -233,7 +236,7 @@ class Case:
                 for fn_, ft in self.decl(t)["fields"]:
                     opts.append({"k": "fset", "n": n, "f": fn_, "ref": t[0] == "class", "e": self.expr(ft, env, 2)})
             if t[0] == "arr":
-                idx = {"k": "lit", "ty": "i64", "c": 0, "o": r.randint(-1, 4)} if r.random() < 0.6 else self.expr("i64", env, 1)
+                idx = {"k": "lit", "ty": "i64", "c": 0, "o": r.randint(-1, 4) if not self.safe else 0} if (r.random() < 0.6 or self.safe) else self.expr("i64", env, 1)
                 opts.append({"k": "seta", "a": n, "i": idx, "e": self.expr(t[1], env, 2)})
         return r.choice(opts) if opts else None
 
@@ -330,6 +333,29 @@ class Case:
                                  {"k": "bin", "op": "-", "l": {"k": "var", "n": "n", "ty": t}, "r": {"k": "lit", "ty": t, "c": 0, "o": 1}, "ty": t},
                                  {"k": "bin", "op": r.choice(["+", "*", "-"]), "l": {"k": "var", "n": "acc", "ty": t}, "r": {"k": "var", "n": "n", "ty": t}, "ty": t}]},
                              "maxn": 6})
+        if "chain" in self.feat:
+            # a call chain ch<d> -> ... -> ch0 whose innermost function performs one operation that traps for the
+            # argument chosen in run(): every frame of the report is known (C14)
+            t = r.choice(INT)
+            depth = r.randint(1, 4)
+            kind = r.choice(["div0", "ovf", "oob", "assert", "shift", "none"])
+            x = {"k": "var", "n": "x", "ty": t}
+            one = {"k": "lit", "ty": t, "c": 0, "o": 1}
+            if kind == "div0": op = {"k": "bin", "op": r.choice(["/", "%"]), "l": {"k": "lit", "ty": t, "c": 0, "o": 100}, "r": x, "ty": t}; arg = 0
+            elif kind == "ovf": op = {"k": "bin", "op": "+", "l": {"k": "lit", "ty": t, "c": 1, "o": -1}, "r": x, "ty": t}; arg = 1
+            elif kind == "shift": op = {"k": "shift", "op": "<<", "l": one, "r": {"k": "conv", "from": t, "e": x, "ty": "i32"} if t == "i64" else x, "ty": t}; arg = 64
+            else: op = {"k": "bin", "op": "+", "l": x, "r": one, "ty": t}; arg = 3
+            body0 = []
+            if kind == "assert": body0.append({"k": "assert", "e": {"k": "cmp", "op": "!=", "l": x, "r": {"k": "lit", "ty": t, "c": 0, "o": 3}, "ty": "bool"}})
+            if kind == "oob":
+                body0.append({"k": "leta", "n": "cha", "ety": t, "len": 2, "e": one})
+                op = {"k": "index", "a": "cha", "i": {"k": "conv", "from": t, "e": x, "ty": "i64"} if t == "i32" else x, "ty": t}
+            self.fns.append({"n": "ch0", "params": [["x", t]], "ret": t, "body": body0, "res": op, "callable": False})
+            for i in range(1, depth + 1):
+                self.fns.append({"n": f"ch{i}", "params": [["x", t]], "ret": t, "callable": False,
+                                 "body": [{"k": "print", "es": [{"k": "lit", "ty": "i32", "c": 0, "o": i}], "nl": r.random() < 0.6 or "print_nonl" not in self.feat}] if r.random() < 0.7 else [],
+                                 "res": {"k": "bin", "op": "+", "l": {"k": "call", "fn": f"ch{i-1}", "args": [x], "ty": t}, "r": {"k": "lit", "ty": t, "c": 0, "o": 0}, "ty": t}})
+            self.chain = {"fn": f"ch{depth}", "ty": t, "arg": arg}
         # run body
         env = {}
         self.depth_budget = 4
@@ -340,6 +366,15 @@ class Case:
             body.append({"k": "leta", "n": nm, "ety": et, "len": r.randint(1, 4), "e": self.expr(et, env, 1)})
             env[nm] = ["arr", et]
         body += self.stmts(env, r.randint(4, 9), 2)
+        if "chain" in self.feat:
+            ch = self.chain
+            call = {"k": "call", "fn": ch["fn"], "args": [{"k": "lit", "ty": ch["ty"], "c": 0, "o": ch["arg"]}], "ty": ch["ty"]}
+            if "lambda" in self.feat and r.random() < 0.5:
+                nm = self.fresh("f")
+                body.append({"k": "lamlet", "n": nm, "params": [], "ret": ch["ty"], "body": [], "res": call})
+                env[nm] = ["lam", [], ch["ty"]]
+                call = {"k": "invoke", "n": nm, "args": [], "ty": ch["ty"]}
+            body.append({"k": "print", "es": [call], "nl": True})
         body.append(self.print_stmt(env))
         self.run = body
         return self
@@ -413,7 +448,8 @@ class Renderer:
             self.line(f"{ind}{s['a']}({self.e(s['i'], ln)}) = {self.e(s['e'], ln)};")
         elif k == "print":
             body = " ".join("${" + self.e(x, ln) + "}" for x in s["es"])
-            self.line(f"{ind}{'println' if s['nl'] else 'print'}(\"{body}\");")
+            # text printed without a newline ends with a space so that the next token stays separate
+            self.line(f"{ind}println(\"{body}\");" if s["nl"] else f"{ind}print(\"{body} \");")
         elif k == "assert":
             self.line(f"{ind}std::assert({self.e(s['e'], ln)});")
         elif k == "return":
@@ -495,7 +531,29 @@ def render(cases, filename="prog.dora"):
     return "\n".join(R.out) + "\n"
 
 
-ALL_FEATURES = ["fn", "rec", "array", "struct", "class", "enum", "option", "tuple", "match", "lambda", "global", "shift", "conv", "print_nonl"]
+ALL_FEATURES = ["chain", "fn", "rec", "array", "struct", "class", "enum", "option", "tuple", "match", "lambda", "global", "shift", "conv", "print_nonl"]
+
+
+def generate_cases(seed, n, features=None):
+    rnd = random.Random(seed)
+    cases = []
+    for i in range(n):
+        feat = set(features if features is not None else [f for f in ALL_FEATURES if rnd.random() < 0.6])
+        cases.append(Case(rnd, f"c{i}", feat).build())
+    return cases
+
+
+def render_subset(cases, idxs):
+    """renders the chosen cases as one program; line numbers are (re)stamped into the ASTs"""
+    sub = [cases[i] for i in idxs]
+    src = render(sub)
+    asts = []
+    for c in sub:
+        a = c.ast()
+        a["main_line"] = c.main_line
+        a["features"] = sorted(c.feat)
+        asts.append(json.loads(json.dumps(a)))
+    return src, asts
 
 
 def generate(seed, n, features=None):
